@@ -166,7 +166,7 @@ def classify(d):
     if not parts or parts[0] == "":
         return "result"
     top = parts[0]
-    if top in ("programs", "tasks"):
+    if top in ("programs", "tasks", "tags_json"):
         return top
     if top == "types":
         return "types/" + (parts[2] if len(parts) > 2 else "set")
@@ -200,11 +200,18 @@ def scenario_for(pname, pers, scope, force=None, image=0):
                     r = r2
             if r[0] != "ok" or r[1] is False:
                 return ("open-failed:" + str(r[:2]), None, None)
+            before = deep_dump(d.tags)
             try:
+                json.dumps(d.tags_json)
                 json.dumps(d.tags_json)
                 js = None
             except Exception as e:  # noqa
                 js = f"{type(e).__name__}: {e}"
+            after = deep_dump(d.tags)
+            if js is None and after != before:
+                # the JSON view is a view: producing it must leave the uploaded definitions (incl. their type classes) alone
+                k = next((k for k in before if after.get(k) != before[k]), "?")
+                js = f"reading tags_json changed the uploaded definition of {k!r}"
             got = canon_result(d)
             call(d.close)
         want = expected(proj, pers, "prog" if scope == "prog" else scope, prog)
@@ -221,6 +228,21 @@ def scenario_for(pname, pers, scope, force=None, image=0):
 
 
 PARTS = 16
+
+
+def deep_dump(tags):
+    """Everything in the uploaded definitions, type classes by name, cycles cut: tag name -> string."""
+    def walk(o, depth=0):
+        if depth > 12:
+            return "..."
+        if isinstance(o, dict):
+            return "{" + ",".join(f"{k}:{walk(v, depth + 1)}" for k, v in sorted(o.items(), key=lambda kv: str(kv[0]))) + "}"
+        if isinstance(o, (list, tuple)):
+            return "[" + ",".join(walk(x, depth + 1) for x in o) + "]"
+        if isinstance(o, type):
+            return f"<{o.__name__}:{getattr(o, 'size', '')}>"
+        return repr(o)
+    return {k: walk(v) for k, v in tags.items()}
 
 
 def shards(tier, seed):
@@ -242,6 +264,7 @@ def shards(tier, seed):
                 sh.append(("explore", "P0", pers, scope))
             sh.append(("forced", "P0", pers, scope))
     sh.append(("fixture", "P0", "v20", "all"))
+    sh += [("explore", "P3", "v20", "all", "debuglog"), ("forced", "P2", "v32", "ctl", "debuglog"), ("explore", "P1", "m800", "ctl", "debuglog")]
     for pers in ("v20", "v32"):
         sh.append(("twins", "P2", pers, "all"))
     return sh
